@@ -41,6 +41,7 @@ import M4riProofs.GenTieSlice
 import M4riProofs.GenTiePleFinal
 import M4riProofs.GenTieGlue
 import M4riProofs.GenTieClose2
+import M4riProofs.GenTieClose4
 namespace M4ri.Props.C03
 open M4ri M4ri.BMat
 
@@ -181,5 +182,15 @@ theorem pluq_end_to_end (L1 L2 L3 : Nat) {A : BMat} (hA : A.WF) :
 #check @M4ri.GenTieClose2.cPle_correct
 #check @M4ri.GenTieClose2.cPle_spec
 #check @M4ri.GenTieClose2.pleRecStep_congr
+
+
+/-! ### THE WHOLE `_mzd_ple` on the C text (GenTieClose4.lean): `pleFull` is the complete generated function (zero-row test through the translated
+    `mzd_first_zero_row`, permutation initialisation, regime test with the cut-off numeral = 524288, base case through a copy, recursive
+    branch); `cPleFull n` = it bound to itself `n` levels deep: for every depth it returns what `pleRec n` returns, a valid PLE factorisation -/
+#check @M4ri.GenTieClose4.cPleFull_correct
+#check @M4ri.GenTieClose4.cPleFull_spec
+#check @M4ri.GenTieClose4.pleFull_pleRec
+#check @M4ri.GenTieClose4.pleCutoff_eq
+#check @M4ri.GenTieClose4.firstZeroRow_bridge
 
 end M4ri.Props.C03
